@@ -40,6 +40,8 @@ def to_steps(acts):
             steps.append({'a': name})
         elif name in ('Kill', 'Restart'):
             steps.append({'a': name, 'addr': a[0]})
+        elif name == 'Drop':
+            steps.append({'a': 'Drop', 'k': a[0]})
     return steps
 
 def sched(name, c, acts):
